@@ -1,1 +1,2 @@
 pub mod chain;
+pub mod pool;
